@@ -63,6 +63,13 @@ def gen_cases(tier, seed):
         r = random.Random(env.seed_for(s, "descriptor"))
         out.append({"seed": s, "mode": "builtin_fail", "n": r.randint(1, 5), "W": r.choice([1, 2, 4]), "sched": r.choice(["default", "random"]),
                     "retry": r.choice([None, 2, 3, "noframe", "noframe"]), "max_errors": r.choice([0, None])})
+    for i in range(max(24, n // 80)):
+        # unusual failing calls: (a) a failing call with more than a thousand levels of transitive dependents below it; (b) a failing call whose
+        # function object (or a scope value) has a __repr__ that raises
+        s = env.seed_for(seed, ID, tier, "odd_failures", i)
+        r = random.Random(env.seed_for(s, "descriptor"))
+        out.append({"seed": s, "mode": "odd_failures", "what": ["deep_dependents", "bad_repr_fn", "bad_repr_scope", "bad_repr_fn"][i % 4], "W": r.choice([1, 1, 2, 4]),
+                    "sched": r.choice(["default", "random"]), "max_errors": r.choice([0, None, 1]), "depth": r.choice([1100, 1400, 2200]), "extra": r.randint(0, 5)})
     for i in range(n // 8):
         # registry runs: a plan function (often the writer behind a chain of dependent sources) raises; nothing that depends on it - no
         # call, no read of a source behind it, no write - may start, and the error must name a call that failed
@@ -207,9 +214,95 @@ def run_builtin_fail(desc):
     return res
 
 
+def run_odd_failures(desc):
+    import threading
+
+    import uberjob
+
+    what = desc["what"]
+    plan = uberjob.Plan()
+    raised = []
+
+    class Boom(ValueError):
+        pass
+
+    def ok(*a):
+        return len(a)
+
+    class BadRepr:
+        """an object whose repr formats a field that is not there (yet): repr() raises"""
+
+        def __repr__(self):
+            raise RuntimeError("repr of an object whose fields are not loaded")
+
+        def __hash__(self):
+            return 7
+
+        def __eq__(self, o):
+            return self is o
+
+        def __call__(self, *a):
+            e = Boom("the call with the unprintable function failed")
+            raised.append(e)
+            raise e
+
+    def boom(*a):
+        e = Boom("failing head")
+        raised.append(e)
+        raise e
+
+    stem = [plan.call(ok, i) for i in range(desc["extra"])]
+    if what == "deep_dependents":
+        failing = plan.call(boom, *stem)
+        prev = failing
+        for i in range(desc["depth"]):
+            prev = plan.call(ok, prev, i)
+        out = [prev] + stem
+    elif what == "bad_repr_fn":
+        failing = plan.call(BadRepr(), *stem)
+        out = [plan.call(ok, failing)] + stem + [plan.call(ok, i, i) for i in range(desc["extra"])]
+    else:
+        with plan.scope("outer", BadRepr()):
+            failing = plan.call(boom, *stem)
+        out = [plan.call(ok, failing)] + stem + [plan.call(ok, i, i) for i in range(desc["extra"])]
+    box = {}
+
+    def go():
+        try:
+            box["res"] = uberjob.run(plan, output=out, max_workers=desc["W"], scheduler=desc["sched"], max_errors=desc["max_errors"], progress=None)
+        except BaseException as e:  # noqa
+            box["exc"] = e
+
+    th = threading.Thread(target=go, daemon=True)
+    th.start()
+    th.join(120)
+    label = {"deep_dependents": f"a failing call with {desc['depth']} levels of transitive dependents below it", "bad_repr_fn": "a failing call whose function object has a __repr__ that raises",
+             "bad_repr_scope": "a failing call inside a scope one of whose values has a __repr__ that raises"}[what]
+    res = {"status": "ok", "counters": {"odd_failure_runs": 1, "failing_runs": 1}, "sets": {"odd_failures": [what]}, "nontrivial": True,
+           "sig": f"odd|{what}|{desc['W']}|{desc['sched']}|{desc['max_errors']}|{desc['depth'] if what == 'deep_dependents' else 0}|{desc['extra']}"}
+    if th.is_alive():
+        res.update(status="inconclusive", detail=f"[{label}, W={desc['W']}] run neither returned nor raised within 120 s of wall clock (termination is C07's business)")
+        return res
+    bad = None
+    exc = box.get("exc")
+    if exc is None:
+        bad = f"run returned {box.get('res')!r:.80} although a call raised"
+    elif type(exc) is not uberjob.CallError:
+        bad = f"run raised {type(exc).__name__} ({exc!r:.120}) instead of CallError"
+    elif exc.call is not failing:
+        bad = "CallError.call is not the call that failed"
+    elif not raised or exc.__cause__ is not raised[-1]:
+        bad = f"CallError.__cause__ is {exc.__cause__!r:.120}, not the exception object the call raised ({raised[-1] if raised else None!r})"
+    if bad:
+        res.update(status="violation", mechanism="error-identity", detail=f"[{label}, W={desc['W']}, max_errors={desc['max_errors']}] {bad}")
+    return res
+
+
 def run_case(desc):
     import uberjob
 
+    if desc.get("mode") == "odd_failures":
+        return run_odd_failures(desc)
     if desc.get("mode") == "builtin_fail":
         return run_builtin_fail(desc)
     if desc.get("mode") == "registry":
